@@ -384,23 +384,20 @@ def mbox_message(cs, body, header=True, html=False, multipart=False):
     return head + b"Content-Type: " + ctype + b"; charset=" + cs.encode() + b"\n\n" + body + b"\n\n"
 
 
-def find_mbox(fn, ordinal):
+def find_mbox(fn=None, ordinal=None):
+    """Messages declaring an unsafe codec in an RFC 2047 header word, a single-part body, a multipart plain and html part."""
     variants = []
     for cs, body in UNSAFE_CODEC_BODIES:
-        if "decode_header" in fn:
-            variants.append((cs, mbox_message(cs, b"x", header=True)))
-        elif ordinal == 0:
-            variants.append((cs, mbox_message(cs, body, header=False, multipart=True)))
-        elif ordinal == 2:
-            variants.append((cs, mbox_message(cs, body, header=False, multipart=True, html=True)))
-        else:
-            variants.append((cs, mbox_message(cs, body, header=False)))
+        variants.append((cs, mbox_message(cs, b"x", header=True)))
+        variants.append((cs, mbox_message(cs, body, header=False, multipart=True)))
+        variants.append((cs, mbox_message(cs, body, header=False, multipart=True, html=True)))
+        variants.append((cs, mbox_message(cs, body, header=False)))
     for cs, data in variants:
         try:
             F = failures_of(data, "a.mbox")
+            res, _p = extract(data, "a.mbox")
         except Exception:  # noqa
             continue
-        res, _p = extract(data, "a.mbox")
         extra = []
         for r in res:
             for k in ("subject", "body_plain", "body_html"):
@@ -409,7 +406,7 @@ def find_mbox(fn, ordinal):
                     extra.append({"kind": "not-wf", "where": f"EmailContent.{k}", "detail": enc_fail(v)})
         wf = [f for f in list(F) + extra if f["kind"] == "not-wf"]
         if wf:
-            return {"reproduced": True, "target": f"mbox_email_extractor.py::{fn}", "inputs": {"mbox": data.decode("ascii"), "declared_charset": cs},
+            return {"reproduced": True, "target": "mbox_email_extractor.py (document-declared charset)", "inputs": {"mbox": data.decode("ascii"), "declared_charset": cs},
                     "expected": "subject / body encodable as UTF-8", "observed": f"{wf[0]['where']}: {wf[0]['detail']}"}
     return {"reproduced": False, "note": "mbox: document-chosen codecs give encodable text"}
 
@@ -519,11 +516,8 @@ def find_odf_length(target):
     from sharepoint2text.parsing.extractors import data_types as dt
     for s in LENGTHS:
         try:
-            if "_odf_length_to_px" in target:
-                dt._odf_length_to_px(s)
-            else:
-                dt.OpenDocumentImage(width=s).get_metadata()
-                dt.OpenDocumentImage(height=s).get_metadata()
+            dt.OpenDocumentImage(width=s).get_metadata()
+            dt.OpenDocumentImage(height=s).get_metadata()
         except Exception as e:  # noqa
             # end-to-end: an ODT whose frame carries that width
             e2e = odt_with_width(s)
@@ -767,7 +761,7 @@ def find(req):
         from replay import c04_meta
         r = c04_meta.find("")
         return r
-    if "/wf#chr-site" in ob:
+    if "#chr-wf@" in ob:
         if "rtf_extractor" in ob:
             return find_rtf(ob.split("::")[1].split("/")[0], n)
         if "sevenzip" in ob:
@@ -778,9 +772,9 @@ def find(req):
         from replay import c04_meta
         m = c04_meta.find("C04/x#docx-")
         return m if m["reproduced"] else r
-    if "/wf#decode-site" in ob:
+    if "#decode-wf@" in ob or "#text-producer-wf@" in ob:
         fn = ob.split("::")[1].split("/")[0]
-        k = int(ob.rsplit("-", 1)[1])
+        k = int(ob.rsplit("@", 1)[1])
         if "html_extractor" in ob:
             return find_html()
         if "mbox_email_extractor" in ob:
@@ -798,7 +792,7 @@ def find(req):
         if s:
             return {"reproduced": True, "target": ob, "inputs": {"file": s[0]["file"]}, "expected": "image number >= 1", "observed": f"{s[0]['where']}: {s[0]['detail']}"}
         return r
-    if "size_bytes-is-len-of-payload" in ob or "/field-store#" in ob:
+    if "size_bytes-is-len-of-payload" in ob or "#store-" in ob:
         r = find_blip(ob)
         if r["reproduced"]:
             return r
@@ -813,7 +807,7 @@ def find(req):
         return find_image(ob.split("::")[1].split(".")[0])
     if "populate_from_path" in ob or "path-fields-default" in ob:
         return find_path()
-    if "_odf_length_to_px" in ob or "OpenDocumentImage.get_metadata" in ob:
+    if "_odf_length_to_px" in ob or "length-helper" in ob or "OpenDocumentImage.get_metadata" in ob:
         return find_odf_length(ob.split("::")[1].split("/")[0])
     if "/metadata-copied" in ob or "metadata#" in ob:
         return find_metadata(ob)
@@ -836,11 +830,7 @@ def known(fid):
     if fid.startswith("C04-html-charset"):
         return find_html()
     if fid.startswith("C04-mbox-charset"):
-        for fn, k in (("decode_header_value", 0), ("get_body_content", 0), ("get_body_content", 2), ("get_body_content", 4)):
-            r = find_mbox(fn, k)
-            if r["reproduced"]:
-                return r
-        return r
+        return find_mbox()
     return {"reproduced": False, "note": "unknown finding"}
 
 
